@@ -46,13 +46,20 @@ MOf(e) == [kind |-> e.op, chart |-> IF e.chart = "" THEN "none" ELSE e.chart,
            replace |-> e.flags.replace, atomic |-> e.flags.atomic, cleanup |-> e.flags.cleanupOnFail,
            keep |-> e.flags.keepHistory, nohooks |-> e.flags.noHooks, lim |-> e.flags.maxHistory,
            ver |-> e.flags.version, dry |-> e.flags.dryRun, takeown |-> e.flags.takeOwnership,
-           clientOnly |-> e.flags.clientOnly, createNS |-> e.flags.createNamespace, skipCRDs |-> e.flags.skipCRDs, force |-> e.flags.force]
+           clientOnly |-> e.flags.clientOnly, createNS |-> e.flags.createNamespace, skipCRDs |-> e.flags.skipCRDs, force |-> e.flags.force, install |-> e.flags.install]
+
+\* `helm upgrade --install` on a release that does not exist (or whose last revision is uninstalled) IS an
+\* install (with --replace in the second case): the properties are applied to what the command does
+EffU(u, st) ==
+  IF u.kind = "upgrade" /\ u.install /\ (Revs(st) = {} \/ st[MaxOf(Revs(st))].st = "uninstalled")
+  THEN [u EXCEPT !.kind = "install", !.replace = (Revs(st) # {}), !.cleanup = FALSE, !.lim = 0]
+  ELSE u
 
 LabOf(e) == [p |-> e.proc, ev |-> e.ev, kind |-> e.kind, verb |-> e.verb, id |-> e.id, ok |-> e.ok, inj |-> e.inj]
 
 NoU == [kind |-> "none", chart |-> "none", replace |-> FALSE, atomic |-> FALSE, cleanup |-> FALSE,
         keep |-> FALSE, nohooks |-> FALSE, lim |-> 0, ver |-> 0, dry |-> FALSE, takeown |-> FALSE,
-        clientOnly |-> FALSE, createNS |-> FALSE, skipCRDs |-> FALSE, force |-> FALSE]
+        clientOnly |-> FALSE, createNS |-> FALSE, skipCRDs |-> FALSE, force |-> FALSE, install |-> FALSE]
 NoSum == [u |-> NoU, ok |-> FALSE, crs |-> {}, flt |-> {}, posted |-> {}, log |-> <<>>, active |-> FALSE,
           sub |-> FALSE, fsub |-> FALSE]
 NoState == [store |-> [r \in MonRev |-> NoRecM], cluster |-> [o \in AllIds |-> AbsentM]]
@@ -91,7 +98,7 @@ MonNext ==
                /\ ended' = 0 /\ esum' = NoSum
           [] e.ev = "begin" ->
                /\ pre' = [pre EXCEPT ![p] = ns]
-               /\ sum' = [sum EXCEPT ![p] = [NoSum EXCEPT !.u = MOf(e), !.active = TRUE]]
+               /\ sum' = [sum EXCEPT ![p] = [NoSum EXCEPT !.u = EffU(MOf(e), ns.store), !.active = TRUE]]
                /\ ended' = 0 /\ esum' = NoSum
           [] e.ev = "call" ->
                /\ sum' = [sum EXCEPT ![p] =
